@@ -244,6 +244,9 @@ func checkParseWidths(c *Ctx, r *Report, rule string, fns ...*ssa.Function) {
 		for _, f := range withAnon(f0) {
 			fs, n := parseWidthFindings(c, f)
 			if n == 0 {
+				if f == f0 {
+					r.proven(rule, fnKey(f)+"|parsed numbers keep their width", c.rel(f.Pos()), "no strconv text-to-integer parse in this function: nothing can be narrowed by one")
+				}
 				continue
 			}
 			bad := ""
